@@ -159,9 +159,15 @@ ret=r
     ensures final(self).status() == status, final(self).iterations() == old(self).iterations(),
             final(self).printed() == old(self).printed(),
 //@end
-//@trait file=src/solver/core/traits.rs name=Solution header="pub trait Solution" rules=R1 assoc="V:Variables" keep=post_process,finalize
+//@trait file=src/solver/core/traits.rs name=Solution header="pub trait Solution" rules=R1 assoc="V:Variables;I:Info" keep=post_process,finalize
+//@extra
+    // ghost: the status held by the report (C03 / C20: it is the info object's final verdict, the one the footer prints)
+    spec fn status_spec(&self) -> SolverStatus;
 //@sig post_process
-    ensures final(variables).dims_spec() == old(variables).dims_spec(),
+    // ASSUMED for every implementation, PROVED for DefaultSolution in unit postprocess: the report copies the verdict of `info`
+    ensures final(variables).dims_spec() == old(variables).dims_spec(), final(self).status_spec() == info.status(),
+//@sig finalize
+    ensures final(self).status_spec() == old(self).status_spec(),
 //@end
 
 // ------------------------------------------------------------------ the default implementation, checked
@@ -275,6 +281,9 @@ where
         is_terminal(final(self).info.status()),
         final(self).info.iterations() <= final(self).settings.core_spec().max_iter,
         final(self).settings.core_spec() == old(self).settings.core_spec(),
+        // C03 / C20: the status in the returned report is the final verdict of `info` (what the footer prints), i.e. the report is
+        // filled AFTER the almost-check of Info::post_process
+        final(self).solution.status_spec() == final(self).info.status(),
         // C07: MaxIterations is reported only with the budget used up exactly
         final(self).info.status() == SolverStatus::MaxIterations ==> final(self).info.iterations() == final(self).settings.core_spec().max_iter,
         // C20: verbose off => nothing is added to the progress table
